@@ -126,6 +126,14 @@ func (w *World) opLongHistory(step int) {
 			bad++
 			continue
 		}
+		if err != nil && shared != nil && shared.MaxEmptyRun() > kernel.PatienceBound {
+			// failing closed on a reader that makes no progress for a long
+			// time is not what the property forbids; the history ends here
+			// (what the device has delivered no longer lines up with the
+			// number of signatures)
+			w.r.Probe("gave_up_with_an_error_after_a_long_run_of_empty_reads")
+			break
+		}
 		if err != nil || r == nil || s == nil {
 			w.r.Violate("C09", "healthy-read-failed", "SignRaw:long-history", step, "%s failed on a healthy entropy source: %v", desc, err)
 			bad++
